@@ -598,7 +598,9 @@ def _spatial(ck: Checker, prog: Program):
     d = {unparse(st.targets[0]): unparse(st.value) for st in bv.node.body if isinstance(st, ast.Assign)}
     rets = [r for r in own_nodes(bv.node) if isinstance(r, ast.Return)]
     good = d.get("(points, indices)") == "self._cull_points(mask)" and d.get("vor") == "Voronoi(points)" and len(rets) == 1 \
-        and unparse(rets[0].value) == "(new_vertices, indices)" and any("polygon_before.intersection(mask)" in unparse(st) for st in ast.walk(bv.node) if isinstance(st, ast.Assign))
+        and unparse(rets[0].value) == "(new_vertices, indices)" \
+        and any(isinstance(c_, ast.Call) and isinstance(c_.func, ast.Attribute) and c_.func.attr == "intersection" and len(c_.args) == 1
+                and isinstance(c_.args[0], ast.Name) and c_.args[0].id == "mask" for c_ in ast.walk(bv.node))
     if good:
         ck.ok("C14.R5", bv.qualname, "tessellation of the retained sensors, each cell clipped by the mask; indices of the same culling")
     else:
